@@ -30,7 +30,8 @@ from harness import spell
 
 FIELDS = ["u", "v", "w"]
 LAST_KLASS = None          # scenario class of the last run_one (for known-finding matching), set by the runners
-SHIFT_KLASS = {"grid": "whip/index-space-not-at-0", "plate": "mandoline2d/index-space-not-at-0",
+SHIFT_KLASS = {"grid": None,        # (whip was repaired: no class, a failure is a violation)
+               "plate": "mandoline2d/index-space-not-at-0",
                "integral": "pestle/index-space-not-at-0", "point": None}       # (the point query was repaired: no class, a failure is a violation)
 
 
